@@ -3,7 +3,7 @@ from __future__ import annotations
 import ast, builtins, operator, types
 import z3
 from . import api, src
-from .core import Unsupported, PathEnd, PyRaise
+from .core import simp, Unsupported, PathEnd, PyRaise
 from .zsorts import VStruct, VOpt, VBox, VObj, VAbs
 from .interp import (Frame, Closure, BoundMethod, SpecRef, Builtin, is_sym, contains_sym, _mro_dict)
 
@@ -233,6 +233,7 @@ class ExprMixin:
             lt = self.zs.lift(tuple(lt), rt.sort())
         if isinstance(rt, (tuple, list)) and z3.is_expr(lt):
             rt = self.zs.lift(tuple(rt), lt.sort())
+        lt, rt = self.int_arm(lt, node), self.int_arm(rt, node)
         a, b = self.zs.common(lt, rt)
         s = a.sort()
         if isinstance(op, ast.Add):
@@ -264,6 +265,19 @@ class ExprMixin:
             q = floordiv(a, b)
             return q if isinstance(op, ast.FloorDiv) else a - b * q
         raise Unsupported(f'binop {type(op).__name__}')
+
+    def int_arm(self, v, node):
+        """arithmetic on a value of a union sort: it must be the int arm (TypeError otherwise)"""
+        if z3.is_expr(v) and v.sort().name() in self.zs.union_by_sort:
+            dt, S = self.zs.union_by_sort[v.sort().name()]
+            for i, (ctor, (pyt, arm)) in enumerate(S.arms.items()):
+                if pyt is int:
+                    ok = dt.recognizer(i)(v)
+                    if not self.cur_pure():
+                        self.oblige('safety:arith-on-int', ok, node, 'TypeError: arithmetic on a non-int component')
+                        self.path.assume(ok)
+                    return simp(dt.accessor(i, 0)(v))
+        return v
 
     # ---------------------------------------------------------------- comparisons
     def ev_Compare(self, e, fr):
@@ -392,7 +406,7 @@ class ExprMixin:
         h = n if hi is None else self.norm_index(hi, n)
         ln = z3.If(h - l < 0, z3.IntVal(0), h - l)
         res = z3.SubString(t, l, ln) if z3.is_string(t) else z3.SubSeq(t, l, ln)
-        res = z3.simplify(res)
+        res = simp(res)
         return VBox(kind, res, base.esort) if kind else res
 
     def index(self, base, idx, node=None):
@@ -425,18 +439,27 @@ class ExprMixin:
                 raise Unsupported('symbolic index into concrete container')
         if isinstance(base, VBox) and base.kind == 'dict':
             raise Unsupported('dict box index')
+        if z3.is_expr(base) and base.sort().name() in self.zs.rec_by_sort:
+            dt, S = self.zs.rec_by_sort[base.sort().name()]
+            if not isinstance(idx, int) or not (-len(S.fields) <= idx < len(S.fields)):
+                raise Unsupported('record index must be a constant in range')
+            return simp(dt.accessor(0, idx % len(S.fields))(base))
         t = self.seqterm(base)
         n = z3.Length(t)
         if isinstance(idx, int):
             ok = (n > idx) if idx >= 0 else (n >= -idx)
             pos = z3.IntVal(idx) if idx >= 0 else n + idx
+        elif self.cur_pure():
+            # rule of the spec/contract language: symbolic indices are non-negative
+            ok = True
+            pos = idx
         else:
             ok = z3.And(idx >= -n, idx < n)
             pos = z3.If(idx < 0, idx + n, idx)
         self.index_guard(ok, node)
         if z3.is_string(t):
             return z3.SubString(t, pos, 1)
-        return z3.simplify(t[pos])
+        return t[pos]
 
     def index_guard(self, ok, node):
         """IndexError is an implicit raise: either proved impossible or an explicit exceptional path"""
@@ -556,7 +579,7 @@ class ExprMixin:
         if isinstance(it, (tuple, list, set, frozenset, dict, range, str)):
             return list(it) if not isinstance(it, (set, frozenset)) else sorted(it, key=repr)
         if isinstance(it, (VBox,)) or z3.is_expr(it):
-            t = z3.simplify(self.seqterm(it))
+            t = simp(self.seqterm(it))
             items = self.seq_concrete_items(t)
             if items is not None:
                 return items
